@@ -294,7 +294,7 @@ pub fn run(run: &mut Run) {
     let sel = if thorough {
         Sel { m3: true, ray: Some(3), ep: Some(true), castle: Some(true), promo: Some(true), reach: Some(4), sanamb: Some((3, true)), ..Default::default() }
     } else {
-        Sel { m3: true, ray: Some(2), ep: Some(false), castle: Some(false), promo: Some(false), reach: Some(3), sanamb: Some((3, false)), ..Default::default() }
+        Sel { m3: true, ray: Some(2), ep: Some(false), castle: Some(false), promo: Some(false), reach: Some(3), sanamb: Some((3, false)), m4_corner: Some(2), ..Default::default() }
     };
     run_universes(run, &sel, DISAGREE, &check_pos);
     if thorough {
